@@ -209,10 +209,13 @@ class Ctx:
         return depth > 0
 
     # ------------------------------------------------------------ in-kernel evaluation
-    def coq_eval(self, name, header, cases, case_type, check_fn, shard=200, timeout=1500):
+    def coq_eval(self, name, header, cases, case_type, check_fn, shard=200, timeout=1500, more=()):
         """Evaluate `check_fn : case_type -> bool` on every case inside Coq (vm_compute).
         cases: list of Coq terms (strings).  Returns the list of indices whose check is false.
+        more: further check functions evaluated on the same cases in the same files; their false-indices
+        are left in self.more_bad[fn].
         Raises RuntimeError when coqc itself fails (model or printer broken)."""
+        self.more_bad = {fn: [] for fn in more}
         if not cases:
             return []
         if os.path.isdir(self.case_dir) and not getattr(self, "_cleaned", False):
@@ -246,6 +249,11 @@ class Ctx:
                         % (case_type, check_fn))
                 f.write("Definition result := bad_idx 0%N the_cases.\n")
                 f.write("Eval vm_compute in (9999999%N :: result).\n")
+                for j, fn2 in enumerate(more):
+                    f.write("Fixpoint bad_idx%d (i : N) (l : list (%s)) : list N :=\n"
+                            "  match l with [] => [] | c :: l' => if (%s) c then bad_idx%d (N.succ i) l' else i :: bad_idx%d (N.succ i) l' end.\n"
+                            % (j, case_type, fn2, j, j))
+                    f.write("Eval vm_compute in (%d%%N :: bad_idx%d 0%%N the_cases).\n" % (9999990 - j, j))
             files.append((k, fn))
 
         def run(item):
@@ -261,13 +269,18 @@ class Ctx:
             for k, fn, rc, out in ex.map(run, files):
                 if rc != 0:
                     raise RuntimeError("coqc failed on %s:\n%s" % (fn, out[-3000:]))
-                m = re.search(r"=\s*\[(.*?)\]\s*:\s*list N", out, flags=re.S)
-                if not m:
+                ms = re.findall(r"=\s*\[(.*?)\]\s*:\s*list N", out, flags=re.S)
+                if len(ms) != 1 + len(more):
                     raise RuntimeError("cannot read coqc output for %s:\n%s" % (fn, out[-2000:]))
-                nums = [int(x) for x in re.findall(r"\d+", m.group(1))]
+                nums = [int(x) for x in re.findall(r"\d+", ms[0])]
                 if not nums or nums[0] != 9999999:
                     raise RuntimeError("sentinel missing in coqc output for %s" % fn)
                 bad += [k + i for i in nums[1:]]
+                for j, fn2 in enumerate(more):
+                    nums = [int(x) for x in re.findall(r"\d+", ms[1 + j])]
+                    if not nums or nums[0] != 9999990 - j:
+                        raise RuntimeError("sentinel missing in coqc output for %s (%s)" % (fn, fn2))
+                    self.more_bad[fn2] += [k + i for i in nums[1:]]
         self.coverage["evaluations_in_kernel"] += len(cases)
         self.log("in-kernel evaluation %s: %d cases in %d files, %.1fs, %d disagreements" %
                  (name, len(cases), len(files), time.time() - t_eval, len(bad)))
